@@ -277,6 +277,12 @@ class Repo:
 
     def module_constant(self, rel: str, name: str):
         for child in self.tree(rel).body:
+            if isinstance(child, ast.AnnAssign) and isinstance(child.target, ast.Name) and child.target.id == name \
+                    and child.value is not None:
+                try:
+                    return True, ast.literal_eval(child.value)
+                except Exception:
+                    return False, child.value
             if isinstance(child, ast.Assign) and len(child.targets) == 1:
                 t = child.targets[0]
                 if isinstance(t, ast.Name) and t.id == name:
@@ -992,6 +998,7 @@ class Interp:
         length, getter = self.iter_access(seqv, s)
         idx_name = f'__i{ordinal}'
         self.env[idx_name] = z3.IntVal(0)
+        self.env[f'__seq{ordinal}'] = seqv  # the iterated sequence, for invariants
         for clause in inv:
             self.p.oblige('inv-init', self.spec_eval(clause), s, f'loop#{ordinal} invariant holds on entry: {clause}')
         targets = self.assigned_names(s.body) | {n.id for n in ast.walk(s.target) if isinstance(n, ast.Name)}
@@ -1669,7 +1676,7 @@ class Interp:
 
     # ---- subscripts ----------------------------------------------------------------
     def ex_Subscript(self, n):
-        if not self.spec and not isinstance(n.slice, ast.Slice) and isinstance(n.value, (ast.Attribute, ast.Name)):
+        if not self.spec and not isinstance(n.slice, ast.Slice) and (isinstance(n.value, ast.Attribute) or (isinstance(n.value, ast.Name) and n.value.id in self.env)):
             get, set_ = self.place(n.value)
             obj = get()
             if S.is_seq(obj):
